@@ -15,6 +15,11 @@ def main():
     # -Q9 is left to C02: it switches on the experimental passes whose hangs and behaviour changes are recorded there, and every
     # route shares the same compile step, so comparing routes at -Q9 only repeats those findings
     LEVELS = ctx.q(['-Q0', '-Q1', '-Q3'], ['-Q0', '-Q1', '-Q2', '-Q3', '-Q5'])
+    # opt-in shapes the shared pools do not contain: fluid variables rebound under a handler and under the raise point
+    # (seeded change C03-fint-fluid-restore), tagged unions, counter closures
+    nopt = ctx.q(6, 60)
+    for fam, extra in (('fluid', ('fluids',)), ('tagged', ('taggedunion', 'unions')), ('counter', ('counters', 'closures'))):
+        progs += progset.generated('C03-%s-pool' % fam, nopt // 2, extra=extra)[0] + progset.generated('C03-%s-fresh-%d' % (fam, ctx.seed), nopt - nopt // 2, extra=extra)[0]
     ROUTES = ['interp-src', 'interp-ao', 'c']
     base = ctx.tmp('w')
     jobs = [(j, lv) for j in range(len(progs)) for lv in LEVELS]
